@@ -15,6 +15,8 @@ def corr(rng, tier):
 
 def search(rng, tier, broken, cases):
     S = SS.search_c12(rng, 45 if tier == "quick" and not broken else 450)
+    import dtypesearch
+    dtypesearch.search_dtype(rng, 12 if tier == "quick" and not broken else 60, ['steps'], pid="C12", S=S)   # same numbers typed int64 vs float64
     return S.violations, S.stats()
 
 
